@@ -10,6 +10,7 @@ debounce only ever deliver items the source emitted, in source order, none twice
 All theorems quantify over every period, every script and EVERY interleaving (every label list accepted by `step`);
 they are proved by invariants over `Reach`.  This file also holds the invariants shared with `C15.lean`
 (`IW.Inv`, `IW.TInv`, `Timeout.Inv`, `Debounce.Inv`, `Timer.Inv`).
+`Timeout` follows operators/timeout.rs AFTER the repair "timeout cancels its armed timer when the subscription ends".
 
 Main theorems: `Interval.interval_ticks` (+ `interval_emits`, `interval_only`, `interval_tie_delivered/_dropped`),
 `Timer.timer_once`, `Delay.delay_times` (+ `expected_events`, `expected_sorted`, `expected_rel/abs`),
@@ -790,26 +791,181 @@ end Delay
 
 namespace Timeout
 
+/-- the per-timer invariant -/
+def TOK (d now : Nat) (w : IW) : Prop := IW.Inv d now w ∧ IW.TInv d now w
+
+/-- `w'` is what became of timer `w0` in one step at time `now` -/
+structure Rel (d now : Nat) (w0 w' : IW) : Prop where
+  ok : TOK d now w'
+  born : w'.born = w0.born
+  sub : w0.sub = false → w'.sub = false
+  ended_keep : ∀ e : Nat, w0.endedAt = some e → w'.endedAt = some e
+  ended_new : ∀ e : Nat, w'.endedAt = some e → w0.endedAt = some e ∨ e = now
+
+theorem Rel.refl {d now : Nat} {w : IW} (h : TOK d now w) : Rel d now w w :=
+  ⟨h, rfl, id, fun _ h => h, fun _ h => Or.inl h⟩
+
+theorem Rel.trans {d now : Nat} {a b c : IW} (h1 : Rel d now a b) (h2 : Rel d now b c) : Rel d now a c :=
+  ⟨h2.ok, h2.born.trans h1.born, fun h => h2.sub (h1.sub h), fun e h => h2.ended_keep e (h1.ended_keep e h),
+   fun e h => by rcases h2.ended_new e h with h | h
+                 · exact h1.ended_new e h
+                 · exact Or.inr h⟩
+
+theorem Rel.cancel {d now : Nat} {w : IW} (h : TOK d now w) : Rel d now w (w.cancel now) := by
+  refine ⟨⟨IW.cancel_inv h.1, IW.cancel_tinv h.1 h.2⟩, rfl, fun _ => rfl, ?_, ?_⟩
+  · intro e he
+    have : w.sub = false := by
+      cases hs : w.sub
+      · rfl
+      · have := h.1.sub_iff.1 hs; simp [he] at this
+    simp [IW.cancel, this, he]
+  · intro e he
+    simp only [IW.cancel] at he
+    split at he
+    · injection he with he; exact Or.inr he.symm
+    · exact Or.inl he
+
+theorem Rel.emitted {d now : Nat} {w : IW} (h : TOK d now w) (hp : w.pc = .emit) : Rel d now w (w.emitted now true) := by
+  refine ⟨⟨IW.emitted_inv true h.1 hp, IW.emitted_tinv h.1 h.2 hp⟩, rfl, ?_, ?_, ?_⟩
+  · intro hs; simp [IW.emitted, hs]
+  · intro e he
+    have : w.sub = false := by
+      cases hs : w.sub
+      · rfl
+      · have := h.1.sub_iff.1 hs; simp [he] at this
+    simp [IW.emitted, this, he]
+  · intro e he
+    simp only [IW.emitted] at he
+    split at he
+    · injection he with he; exact Or.inr he.symm
+    · exact Or.inl he
+
+theorem Rel.localStep {d now : Nat} {w w' : IW} (h : TOK d now w) (hs : w.localStep d now = some w') : Rel d now w w' := by
+  obtain ⟨f1, f2, f3, fb, _⟩ := IW.localStep_spec hs
+  exact ⟨⟨IW.localStep_inv h.1 hs, IW.localStep_tinv h.1 h.2 hs⟩, fb, fun h => by rw [f2]; exact h,
+    fun e he => by rw [f3]; exact he, fun e he => Or.inl (by rw [← f3]; exact he)⟩
+
+/-- pointwise description of a step on the timer list -/
+def PW (d now : Nat) (ts ts' : List IW) : Prop :=
+  ts'.length = ts.length ∧ ∀ (j : Nat) (w' : IW), ts'[j]? = some w' → ∃ w0 : IW, ts[j]? = some w0 ∧ Rel d now w0 w'
+
+theorem PW.refl {d now : Nat} {ts : List IW} (h : ∀ (j : Nat) (w : IW), ts[j]? = some w → TOK d now w) : PW d now ts ts :=
+  ⟨rfl, fun j w hw => ⟨w, hw, Rel.refl (h j w hw)⟩⟩
+
+theorem PW.trans {d now : Nat} {a b c : List IW} (h1 : PW d now a b) (h2 : PW d now b c) : PW d now a c := by
+  refine ⟨h2.1.trans h1.1, ?_⟩
+  intro j w hw
+  obtain ⟨w1, g1, r1⟩ := h2.2 j w hw
+  obtain ⟨w0, g0, r0⟩ := h1.2 j w1 g1
+  exact ⟨w0, g0, r0.trans r1⟩
+
+theorem PW.set {d now : Nat} {ts : List IW} {i : Nat} {w w' : IW}
+    (h : ∀ (j : Nat) (w : IW), ts[j]? = some w → TOK d now w) (hw : ts[i]? = some w) (hr : Rel d now w w') :
+    PW d now ts (ts.set i w') := by
+  refine ⟨by simp, ?_⟩
+  intro j w'' hw''
+  rw [List.getElem?_set] at hw''
+  split at hw''
+  · next hij =>
+    split at hw''
+    · injection hw'' with hw''; subst hw''; subst hij; exact ⟨w, hw, hr⟩
+    · contradiction
+  · exact ⟨w'', hw'', Rel.refl (h j w'' hw'')⟩
+
+theorem PW.cancelIn {d now : Nat} {ts : List IW} (slot : Option Nat)
+    (h : ∀ (j : Nat) (w : IW), ts[j]? = some w → TOK d now w) : PW d now ts (cancelIn now slot ts) := by
+  simp only [Timeout.cancelIn]
+  split
+  · next i =>
+    split
+    · next w hw => exact PW.set h hw (Rel.cancel (h i w hw))
+    · exact PW.refl h
+  · exact PW.refl h
+
+/-- after cancelling the slot, no timer is subscribed any more (given that only the slot timer could be) -/
+theorem cancelIn_sub {now : Nat} {slot : Option Nat} {ts : List IW}
+    (h : ∀ (i : Nat) (w : IW), ts[i]? = some w → slot ≠ some i → w.sub = false) :
+    ∀ (i : Nat) (w : IW), (cancelIn now slot ts)[i]? = some w → w.sub = false := by
+  intro i w hw
+  simp only [cancelIn] at hw
+  split at hw
+  · next j =>
+    split at hw
+    · next wj hwj =>
+      rw [List.getElem?_set] at hw
+      split at hw
+      · split at hw
+        · injection hw with hw; subst hw; simp [IW.cancel]
+        · contradiction
+      · next hne => exact h i w hw (by intro h'; injection h' with h'; exact hne h')
+    · next hnone =>
+      by_cases hij : j = i
+      · subst hij; rw [hnone] at hw; contradiction
+      · exact h i w hw (by intro h'; injection h' with h'; exact hij h')
+  · exact h i w hw (by simp)
+
+theorem PW.finTimers {d : Nat} {s : State} {ts : List IW}
+    (h : ∀ (j : Nat) (w : IW), ts[j]? = some w → TOK d s.now w) : PW d s.now ts (finTimers s ts) := by
+  simp only [Timeout.finTimers]; split
+  · exact PW.cancelIn _ h
+  · exact PW.refl h
+
 structure Inv (p : Params) (s : State) : Prop where
-  timers_ok : ∀ (i : Nat) (w : IW), s.timers[i]? = some w → IW.Inv p.d s.now w ∧ IW.TInv p.d s.now w
+  timers_ok : ∀ (i : Nat) (w : IW), s.timers[i]? = some w → TOK p.d s.now w
   sub_src : s.srcSub = true → s.sub = true
   outer_iff : s.sub = true ↔ s.outerEndedAt = none
   outer_le : ∀ E : Nat, s.outerEndedAt = some E → E ≤ s.now
   outer_born : ∀ E : Nat, s.outerEndedAt = some E → ∀ (i : Nat) (w : IW), s.timers[i]? = some w → w.born ≤ E
   outer_mid : ∀ E : Nat, s.outerEndedAt = some E → (s.src.pc = .mid1 ∨ s.src.pc = .mid2) → s.now = E
   slot_lt : ∀ i : Nat, s.slot = some i → i < s.timers.length
+  sub_fin : s.sub = true → s.onFin = true
+  mid_slot : (s.src.pc = .mid1 ∨ s.src.pc = .mid2) → s.slot = none
+  others : ∀ (i : Nat) (w : IW), s.timers[i]? = some w → s.slot ≠ some i → w.sub = false
+  arming_pc : s.arming = true → s.src.pc = .mid2
+  ended_all : ∀ E : Nat, s.outerEndedAt = some E → s.raced = false →
+    s.arming = false ∧ ∀ (i : Nat) (w : IW), s.timers[i]? = some w → ∃ e : Nat, w.endedAt = some e ∧ e ≤ E
+  raced_u : s.raced = true → p.unsubAt ≠ none
 
 theorem inv_init (p : Params) : Inv p (init p) := by
+  have := (Src.start_props 0 p.script).1
   constructor <;> simp [init]
 
-theorem start_pc (now : Nat) (r : Script) : (Src.start now r).pc = .sleeping ∨ (Src.start now r).pc = .done := by
-  cases r with
-  | nil => simp [Src.start]
-  | cons a r => obtain ⟨w, ev⟩ := a; simp [Src.start]
+theorem start_pc (now : Nat) (r : Script) : (Src.start now r).pc = .sleeping ∨ (Src.start now r).pc = .done :=
+  (Src.start_props now r).1
+
+/-- what a pointwise step on the timer list keeps of the invariant -/
+theorem pw_basic {p : Params} {s : State} {ts' : List IW} (h : Inv p s) (hpw : PW p.d s.now s.timers ts') :
+    (∀ (j : Nat) (w' : IW), ts'[j]? = some w' → TOK p.d s.now w') ∧
+    (∀ (j : Nat) (w' : IW), ts'[j]? = some w' → w'.born ≤ s.now) ∧
+    (∀ E : Nat, s.outerEndedAt = some E → ∀ (j : Nat) (w' : IW), ts'[j]? = some w' → w'.born ≤ E) ∧
+    (∀ (j : Nat) (w' : IW), ts'[j]? = some w' → s.slot ≠ some j → w'.sub = false) ∧
+    ts'.length = s.timers.length ∧
+    (∀ (j : Nat) (w' : IW), ts'[j]? = some w' → w'.sub = false → ∃ e : Nat, w'.endedAt = some e ∧ e ≤ s.now) ∧
+    (∀ E : Nat, s.outerEndedAt = some E → s.raced = false →
+      ∀ (j : Nat) (w' : IW), ts'[j]? = some w' → ∃ e : Nat, w'.endedAt = some e ∧ e ≤ E) := by
+  refine ⟨?_, ?_, ?_, ?_, hpw.1, ?_, ?_⟩
+  · intro j w' hw'; obtain ⟨w0, _, r⟩ := hpw.2 j w' hw'; exact r.ok
+  · intro j w' hw'; obtain ⟨w0, _, r⟩ := hpw.2 j w' hw'; exact r.ok.2.born_le
+  · intro E hE j w' hw'; obtain ⟨w0, h0, r⟩ := hpw.2 j w' hw'; rw [r.born]; exact h.outer_born E hE j w0 h0
+  · intro j w' hw' hne; obtain ⟨w0, h0, r⟩ := hpw.2 j w' hw'; exact r.sub (h.others j w0 h0 hne)
+  · intro j w' hw' hs
+    obtain ⟨w0, _, r⟩ := hpw.2 j w' hw'
+    cases he : w'.endedAt with
+    | none => have := r.ok.1.sub_iff.2 he; simp [hs] at this
+    | some e => exact ⟨e, rfl, r.ok.1.ended_le e he⟩
+  · intro E hE hr j w' hw'
+    obtain ⟨w0, h0, r⟩ := hpw.2 j w' hw'
+    obtain ⟨e, he, hle⟩ := (h.ended_all E hE hr).2 j w0 h0
+    exact ⟨e, r.ended_keep e he, hle⟩
+
+theorem finTimers_sub {s : State} {ts : List IW} (hfin : s.onFin = true)
+    (h : ∀ (i : Nat) (w : IW), ts[i]? = some w → s.slot ≠ some i → w.sub = false) :
+    ∀ (i : Nat) (w : IW), (finTimers s ts)[i]? = some w → w.sub = false := by
+  simp only [finTimers, hfin, if_true]; exact cancelIn_sub h
 
 theorem step_inv {p : Params} {s s' : State} {l : Label} (h : Inv p s) (hs : step p s l = some s') : Inv p s' := by
-  obtain ⟨a1, a2, a3, a4, a5, a6, a7⟩ := h
-  have hb : ∀ (i : Nat) (w : IW), s.timers[i]? = some w → w.born ≤ s.now := fun i w hw => (a1 i w hw).2.born_le
+  have hself := pw_basic h (PW.refl h.timers_ok)
+  obtain ⟨a1, a2, a3, a4, a5, a6, a7, a8, a9, a10, a11, a12, a13⟩ := h
   cases l with
   | tick t' =>
     simp only [step] at hs
@@ -825,6 +981,7 @@ theorem step_inv {p : Params} {s s' : State} {l : Label} (h : Inv p s) (hs : ste
       all_goals grind [Src.allowsTick]
     · contradiction
   | run tid =>
+    obtain ⟨k1, k2, k3, k4, k5, k6, k7⟩ := hself
     match tid with
     | 0 =>
       simp only [step] at hs
@@ -840,6 +997,7 @@ theorem step_inv {p : Params} {s s' : State} {l : Label} (h : Inv p s) (hs : ste
           · contradiction
         · contradiction
       · next hp =>
+        have hq := start_pc s.now s.src.rest.tail
         split at hs
         · next w x r hr =>
           split at hs
@@ -847,50 +1005,138 @@ theorem step_inv {p : Params} {s s' : State} {l : Label} (h : Inv p s) (hs : ste
             injection hs with hs; subst hs
             have hsub := a2 hsrc
             have hE := a3.1 hsub
+            have hpw : PW p.d s.now s.timers (cancelSlot s) := PW.cancelIn _ a1
+            obtain ⟨m1, m2, m3, m4, m5, m6, m7⟩ := pw_basic ⟨a1, a2, a3, a4, a5, a6, a7, a8, a9, a10, a11, a12, a13⟩ hpw
+            have hall := cancelIn_sub (now := s.now) a10
             constructor
-            · intro i w hw
-              simp only [cancelSlot] at hw
-              split at hw
-              · next j hj =>
-                split at hw
-                · next wj hwj =>
-                  rw [List.getElem?_set] at hw
-                  split at hw
-                  · split at hw
-                    · injection hw with hw; subst hw
-                      exact ⟨IW.cancel_inv (a1 j wj hwj).1, IW.cancel_tinv (a1 j wj hwj).1 (a1 j wj hwj).2⟩
-                    · contradiction
-                  · exact a1 i w hw
-                · exact a1 i w hw
-              · exact a1 i w hw
-            all_goals grind
+            · exact m1
+            · exact a2
+            · exact a3
+            · exact a4
+            · intro E hE'; simp [hE] at hE'
+            · intro E hE'; simp [hE] at hE'
+            · simp
+            · exact a8
+            · simp
+            · intro i w hw _; exact hall i w hw
+            · intro ha; have := a11 ha; simp [hp] at this
+            · intro E hE'; simp [hE] at hE'
+            · exact a13
           · next hsrc =>
             injection hs with hs; subst hs
-            have := start_pc s.now s.src.rest.tail
             constructor <;> grind [Src.advance]
         · next w ev r hne hr =>
-          injection hs with hs; subst hs
-          have := start_pc s.now s.src.rest.tail
-          constructor <;> grind [Src.advance, endOuter]
+          split at hs
+          · next hsrc =>
+            injection hs with hs; subst hs
+            have hsub := a2 hsrc
+            have hfin := a8 hsub
+            have hpw : PW p.d s.now s.timers (finTimers s s.timers) := PW.finTimers a1
+            obtain ⟨m1, m2, m3, m4, m5, m6, m7⟩ := pw_basic ⟨a1, a2, a3, a4, a5, a6, a7, a8, a9, a10, a11, a12, a13⟩ hpw
+            have hall := finTimers_sub hfin a10
+            have hnarm : s.arming = false := by
+              cases ha : s.arming
+              · rfl
+              · have := a11 ha; simp [hp] at this
+            constructor
+            · exact m1
+            · simp
+            · simp [endOuter, hsub]
+            · intro E hE; simp [endOuter, hsub] at hE; subst hE; exact Nat.le_refl _
+            · intro E hE j w' hw'; simp [endOuter, hsub] at hE; subst hE; exact m2 j w' hw'
+            · intro E hE hpc; exfalso; simp only [Src.advance] at hpc; rcases hq with h | h <;> simp [h] at hpc
+            · simp [finSlot, hfin]
+            · simp
+            · intro _; simp [finSlot, hfin]
+            · intro i w' hw' _; exact hall i w' hw'
+            · intro ha; simp [hnarm] at ha
+            · intro E hE _
+              simp [endOuter, hsub] at hE; subst hE
+              refine ⟨hnarm, ?_⟩
+              intro i w' hw'; exact m6 i w' hw' (hall i w' hw')
+            · exact a13
+          · next hsrc =>
+            injection hs with hs; subst hs
+            constructor <;> grind [Src.advance]
         · contradiction
       · next hp =>
         split at hs
-        · injection hs with hs; subst hs
-          constructor <;> grind
+        · next w ev r hr =>
+          split at hs
+          · next hsub =>
+            injection hs with hs; subst hs
+            constructor <;> grind
+          · next hsub =>
+            injection hs with hs; subst hs
+            have hsub' : s.sub = false := by simpa using hsub
+            have hslot := a9 (Or.inl hp)
+            have hpw : PW p.d s.now s.timers (finTimers s s.timers) := PW.finTimers a1
+            obtain ⟨m1, m2, m3, m4, m5, m6, m7⟩ := pw_basic ⟨a1, a2, a3, a4, a5, a6, a7, a8, a9, a10, a11, a12, a13⟩ hpw
+            have hfs : finSlot s = none := by simp [finSlot, hslot]
+            constructor
+            · exact m1
+            · simp
+            · exact a3
+            · exact a4
+            · exact m3
+            · intro E hE _; exact a6 E hE (Or.inl hp)
+            · simp [hfs]
+            · simp [hsub']
+            · intro _; exact hfs
+            · intro i w' hw' _; exact m4 i w' hw' (by simp [hslot])
+            · intro ha; have := a11 ha; simp [hp] at this
+            · intro E hE hr'; exact ⟨(a12 E hE hr').1, m7 E hE hr'⟩
+            · exact a13
         · contradiction
       · next hp =>
-        injection hs with hs; subst hs
-        have := start_pc s.now s.src.rest.tail
-        constructor
-        · intro i w hw
-          rw [List.getElem?_append] at hw
-          split at hw
-          · exact a1 i w hw
-          · have : w = { born := s.now } := by
-              cases hi : i - s.timers.length <;> simp [hi] at hw; exact hw.symm
-            subst this
-            exact ⟨IW.inv_new _ _ _, IW.tinv_new _ _⟩
-        all_goals grind [Src.advance]
+        have hq := start_pc s.now s.src.rest.tail
+        have hslot := a9 (Or.inr hp)
+        split at hs
+        · next harm =>
+          injection hs with hs; subst hs
+          constructor
+          · intro i w hw
+            rw [List.getElem?_append] at hw
+            split at hw
+            · exact a1 i w hw
+            · have : w = { born := s.now } := by
+                cases hi : i - s.timers.length <;> simp [hi] at hw; exact hw.symm
+              subst this
+              exact ⟨IW.inv_new _ _ _, IW.tinv_new _ _⟩
+          · exact a2
+          · exact a3
+          · exact a4
+          · intro E hE i w hw
+            rw [List.getElem?_append] at hw
+            split at hw
+            · exact a5 E hE i w hw
+            · have : w = { born := s.now } := by
+                cases hi : i - s.timers.length <;> simp [hi] at hw; exact hw.symm
+              subst this
+              have := a6 E hE (Or.inr hp); simp; omega
+          · intro E hE hpc; exfalso; simp only [Src.advance] at hpc; rcases hq with h | h <;> simp [h] at hpc
+          · simp
+          · exact a8
+          · intro hpc; exfalso; simp only [Src.advance] at hpc; rcases hq with h | h <;> simp [h] at hpc
+          · intro i w hw hne
+            rw [List.getElem?_append] at hw
+            split at hw
+            · exact a10 i w hw (by simp [hslot])
+            · next hge =>
+              exfalso
+              have : i - s.timers.length ≠ 0 := by
+                intro h0; apply hne; simp; omega
+              cases hi : i - s.timers.length <;> simp [hi] at hw this
+          · simp
+          · intro E hE hr'; have := (a12 E hE hr').1; simp [harm] at this
+          · exact a13
+        · split at hs
+          · next hsub =>
+            injection hs with hs; subst hs
+            constructor <;> grind
+          · next hsub =>
+            injection hs with hs; subst hs
+            constructor <;> grind [Src.advance]
       · contradiction
     | 1 =>
       simp only [step] at hs
@@ -899,68 +1145,133 @@ theorem step_inv {p : Params} {s s' : State} {l : Label} (h : Inv p s) (hs : ste
         split at hs
         · next hc =>
           injection hs with hs; subst hs
-          constructor <;> grind [endOuter]
+          have hpw : PW p.d s.now s.timers (finTimers s s.timers) := PW.finTimers a1
+          obtain ⟨m1, m2, m3, m4, m5, m6, m7⟩ := pw_basic ⟨a1, a2, a3, a4, a5, a6, a7, a8, a9, a10, a11, a12, a13⟩ hpw
+          constructor
+          · exact m1
+          · simp
+          · simp [endOuter]; cases hsub : s.sub <;> simp; exact fun h => by simp [a3.2 h] at hsub
+          · intro E hE; simp only [endOuter] at hE
+            split at hE
+            · injection hE with hE; subst hE; exact Nat.le_refl _
+            · exact a4 E hE
+          · intro E hE j w' hw'; simp only [endOuter] at hE
+            split at hE
+            · injection hE with hE; subst hE; exact m2 j w' hw'
+            · exact m3 E hE j w' hw'
+          · intro E hE hpc; simp only [endOuter] at hE
+            split at hE
+            · injection hE with hE
+            · exact a6 E hE hpc
+          · intro i hi; simp only [finSlot] at hi
+            split at hi
+            · contradiction
+            · rw [m5]; exact a7 i hi
+          · simp
+          · intro hpc; simp only [finSlot]; split
+            · rfl
+            · exact a9 hpc
+          · intro i w' hw' hne
+            by_cases hfin : s.onFin = true
+            · exact finTimers_sub hfin a10 i w' hw'
+            · simp [finSlot, hfin] at hne; exact m4 i w' hw' hne
+          · exact a11
+          · intro E hE hr'
+            simp at hr'
+            simp only [endOuter] at hE
+            split at hE
+            · next hsub =>
+              injection hE with hE; subst hE
+              refine ⟨hr'.2, ?_⟩
+              intro i w' hw'
+              exact m6 i w' hw' (finTimers_sub (a8 hsub) a10 i w' hw')
+            · exact ⟨(a12 E hE hr'.1).1, m7 E hE hr'.1⟩
+          · intro _; simp [hu]
         · contradiction
       · contradiction
     | i + 2 =>
       simp only [step] at hs
       split at hs
       · next w hw =>
-        obtain ⟨iw, tw⟩ := a1 i w hw
+        have tok := a1 i w hw
+        have hI : Inv p s := ⟨a1, a2, a3, a4, a5, a6, a7, a8, a9, a10, a11, a12, a13⟩
         split at hs
         · next hp =>
-          injection hs with hs; subst hs
-          constructor
-          · intro j w' hw'
-            rw [List.getElem?_set] at hw'
-            split at hw'
-            · split at hw'
-              · injection hw' with hw'; subst hw'
-                exact ⟨IW.emitted_inv true iw hp, IW.emitted_tinv iw tw hp⟩
+          split at hs
+          · next hws =>
+            -- the timer fires
+            injection hs with hs; subst hs
+            have hpw1 : PW p.d s.now s.timers (s.timers.set i (w.emitted s.now true)) :=
+              PW.set a1 hw (Rel.emitted tok hp)
+            obtain ⟨n1, n2, n3, n4, n5, n6, n7⟩ := pw_basic hI hpw1
+            have hpw : PW p.d s.now s.timers (finTimers s (s.timers.set i (w.emitted s.now true))) :=
+              hpw1.trans (PW.finTimers n1)
+            obtain ⟨m1, m2, m3, m4, m5, m6, m7⟩ := pw_basic hI hpw
+            have hslot : s.slot = some i := by
+              cases h : s.slot with
+              | none => have := a10 i w hw (by simp [h]); simp [this] at hws
+              | some j =>
+                by_cases hij : j = i
+                · rw [hij]
+                · have := a10 i w hw (by simp [h]; exact hij); simp [this] at hws
+            have hnarm : s.arming = false := by
+              cases ha : s.arming
+              · rfl
+              · have := a9 (Or.inr (a11 ha)); simp [this] at hslot
+            have hothers : ∀ (j : Nat) (w' : IW),
+                (finTimers s (s.timers.set i (w.emitted s.now true)))[j]? = some w' → finSlot s ≠ some j → w'.sub = false := by
+              intro j w' hw' hne
+              by_cases hfin : s.onFin = true
+              · exact finTimers_sub hfin n4 j w' hw'
+              · simp [finSlot, hfin] at hne; exact m4 j w' hw' hne
+            constructor
+            · exact m1
+            · simp
+            · simp [endOuter]; cases hsub : s.sub <;> simp; exact fun h => by simp [a3.2 h] at hsub
+            · intro E hE; simp only [endOuter] at hE
+              split at hE
+              · injection hE with hE; subst hE; exact Nat.le_refl _
+              · exact a4 E hE
+            · intro E hE j w' hw'; simp only [endOuter] at hE
+              split at hE
+              · injection hE with hE; subst hE; exact m2 j w' hw'
+              · exact m3 E hE j w' hw'
+            · intro E hE hpc
+              have := a9 hpc; simp [this] at hslot
+            · intro j hj; simp only [finSlot] at hj
+              split at hj
               · contradiction
-            · exact a1 j w' hw'
-          · grind
-          · grind [endOuter]
-          · grind [endOuter]
-          · intro E hE j w' hw'
-            rw [List.getElem?_set] at hw'
-            have hbw := hb i w hw
-            split at hw'
-            · split at hw'
-              · injection hw' with hw'; subst hw'
-                simp only [IW.emitted]
-                grind [endOuter]
-              · contradiction
-            · have := hb j w' hw'; grind [endOuter]
-          · grind [endOuter]
-          · grind
+              · rw [m5]; exact a7 j hj
+            · simp
+            · intro hpc; have := a9 hpc; simp [this] at hslot
+            · exact hothers
+            · exact a11
+            · intro E hE hr'
+              refine ⟨hnarm, ?_⟩
+              simp only [endOuter] at hE
+              split at hE
+              · next hsub =>
+                injection hE with hE; subst hE
+                intro j w' hw'
+                exact m6 j w' hw' (finTimers_sub (a8 hsub) n4 j w' hw')
+              · exact m7 E hE hr'
+            · exact a13
+          · next hws =>
+            -- `s.next(0)` of a cancelled timer: nothing happens
+            injection hs with hs; subst hs
+            have hpw : PW p.d s.now s.timers (s.timers.set i (w.emitted s.now true)) :=
+              PW.set a1 hw (Rel.emitted tok hp)
+            obtain ⟨m1, m2, m3, m4, m5, m6, m7⟩ := pw_basic hI hpw
+            exact ⟨m1, a2, a3, a4, m3, a6, fun j hj => by rw [m5]; exact a7 j hj, a8, a9, m4, a11,
+              fun E hE hr' => ⟨(a12 E hE hr').1, m7 E hE hr'⟩, a13⟩
         · next hp =>
           split at hs
           · next w' hw' =>
             injection hs with hs; subst hs
-            obtain ⟨f1, f2, f3, fb, f4, f5, f6, f7, f8⟩ := IW.localStep_spec hw'
-            constructor
-            · intro j w'' hw''
-              rw [List.getElem?_set] at hw''
-              split at hw''
-              · split at hw''
-                · injection hw'' with hw''; subst hw''
-                  exact ⟨IW.localStep_inv iw hw', IW.localStep_tinv iw tw hw'⟩
-                · contradiction
-              · exact a1 j w'' hw''
-            · grind
-            · grind
-            · grind
-            · intro E hE j w'' hw''
-              rw [List.getElem?_set] at hw''
-              split at hw''
-              · split at hw''
-                · injection hw'' with hw''; subst hw''
-                  rw [fb]; exact a5 E hE i w hw
-                · contradiction
-              · exact a5 E hE j w'' hw''
-            · grind
-            · grind
+            have hpw : PW p.d s.now s.timers (s.timers.set i w') := PW.set a1 hw (Rel.localStep tok hw')
+            obtain ⟨m1, m2, m3, m4, m5, m6, m7⟩ := pw_basic hI hpw
+            exact ⟨m1, a2, a3, a4, m3, a6, fun j hj => by rw [m5]; exact a7 j hj, a8, a9, m4, a11,
+              fun E hE hr' => ⟨(a12 E hE hr').1, m7 E hE hr'⟩, a13⟩
           · contradiction
       · contradiction
 
@@ -1045,8 +1356,6 @@ structure FInv (p : Params) (s : State) : Prop where
   mid : (s.src.pc = .mid1 ∨ s.src.pc = .mid2) → s.srcSub = true ∨ s.sub = false
   mid_next : (s.src.pc = .mid1 ∨ s.src.pc = .mid2) →
          ∀ (w : Wait) (ev : Ev) (r : Script), s.src.rest = (w, ev) :: r → ∃ x, ev = .next x
-  mid_slot : (s.src.pc = .mid1 ∨ s.src.pc = .mid2) → s.slot = none
-  others : ∀ (i : Nat) (w : IW), s.timers[i]? = some w → s.slot ≠ some i → w.sub = false
   armed : s.sub = true → ∀ i : Nat, s.slot = some i → ∃ w : IW, s.timers[i]? = some w ∧ w.sub = true ∧ w.born = s.src.base
   notie : s.sub = true → (s.src.pc = .sleeping ∨ s.src.pc = .call ∨ s.src.pc = .done) →
             noTie p.d s.src.base s.slot.isSome s.src.rest
@@ -1078,11 +1387,11 @@ theorem fire_fut {p : Params} {s : State} (hi : Inv p s) (hf : FInv p s) (hsub :
     fut p s = [(s.now, .error timedOut)] := by
   have hslot : s.slot = some i := by
     cases h : s.slot with
-    | none => have := hf.others i w hw (by simp [h]); simp [this] at hws
+    | none => have := hi.others i w hw (by simp [h]); simp [this] at hws
     | some j =>
       by_cases hij : j = i
       · rw [hij]
-      · have := hf.others i w hw (by simp [h]; exact hij); simp [this] at hws
+      · have := hi.others i w hw (by simp [h]; exact hij); simp [this] at hws
   obtain ⟨w', hw', _, hwb⟩ := hf.armed hsub i hslot
   rw [hw] at hw'; injection hw' with hw'; subst hw'
   obtain ⟨iw, tw⟩ := hi.timers_ok i w hw
@@ -1107,37 +1416,18 @@ theorem fire_fut {p : Params} {s : State} (hi : Inv p s) (hf : FInv p s) (hsub :
       have := hf.call hp wt ev r hr
       have hnt := (notie_cons (hr ▸ hf.notie hsub (Or.inr (Or.inl hp)))).1 hsl
       omega
-  · have := hf.mid_slot (Or.inl hp); simp [this] at hslot
-  · have := hf.mid_slot (Or.inr hp); simp [this] at hslot
+  · have := hi.mid_slot (Or.inl hp); simp [this] at hslot
+  · have := hi.mid_slot (Or.inr hp); simp [this] at hslot
   · simp only [fut, hp, hf.done hp, hsl]
     rw [exp_nil, hnow]
-
-theorem cancelSlot_sub {s : State}
-    (h : ∀ (i : Nat) (w : IW), s.timers[i]? = some w → s.slot ≠ some i → w.sub = false) :
-    ∀ (i : Nat) (w : IW), (cancelSlot s)[i]? = some w → w.sub = false := by
-  intro i w hw
-  simp only [cancelSlot] at hw
-  split at hw
-  · next j hj =>
-    split at hw
-    · next wj hwj =>
-      rw [List.getElem?_set] at hw
-      split at hw
-      · split at hw
-        · injection hw with hw; subst hw; simp [IW.cancel]
-        · contradiction
-      · next hne => exact h i w hw (by rw [hj]; intro h'; injection h' with h'; exact hne h')
-    · next hnone =>
-      by_cases hij : j = i
-      · subst hij; rw [hnone] at hw; contradiction
-      · exact h i w hw (by rw [hj]; intro h'; injection h' with h'; exact hij h')
-  · next hnone => exact h i w hw (by rw [hnone]; simp)
 
 theorem fstep {p : Params} {s s' : State} {l : Label} (hu : p.unsubAt = none) (hi : Inv p s) (hf : FInv p s)
     (hs : step p s l = some s') : FInv p s' := by
   have hab := armed_bound hi hf
   have hfire := @fire_fut p s hi hf
-  obtain ⟨b0, b1, b2, b3, b4, b5, b6, b7, b8, b9, b10, b11, b12, b13⟩ := hf
+  have hms := hi.mid_slot
+  have hoth := hi.others
+  obtain ⟨b0, b1, b2, b3, b4, b5, b6, b9, b10, b11, b12, b13⟩ := hf
   cases l with
   | tick t' =>
     simp only [step] at hs
@@ -1174,7 +1464,6 @@ theorem fstep {p : Params} {s s' : State} {l : Label} (hu : p.unsubAt = none) (h
           split at hs
           · next hsrc =>
             injection hs with hs; subst hs
-            have hoth := cancelSlot_sub b8
             constructor
             · exact b0
             · grind
@@ -1183,8 +1472,6 @@ theorem fstep {p : Params} {s s' : State} {l : Label} (hu : p.unsubAt = none) (h
             · grind
             · grind
             · grind
-            · grind
-            · intro i w' hw' _; exact hoth i w' hw'
             · grind
             · grind
             · intro hsub _
@@ -1208,104 +1495,120 @@ theorem fstep {p : Params} {s s' : State} {l : Label} (hu : p.unsubAt = none) (h
             intro hsub ⟨h1, h2⟩
             obtain ⟨i, hi'⟩ := Option.isSome_iff_exists.1 h1
             have := hab hsub i hi'; omega
-          injection hs with hs; subst hs
           obtain ⟨q1, q2, q3, q4, q5, q6⟩ := Src.start_props s.now s.src.rest.tail
-          have hlog : (s.sub && !s.srcSub) = false →
-              (s.log ++ if (s.srcSub && s.sub) = true then [(s.now, ev)] else []) = expected p.d 0 false p.script := by
-            intro _
-            cases hsub : s.sub
-            · simpa using b13 hsub
-            · have := b12 hsub
-              simp only [fut, hp, hr] at this
-              rw [exp_pass_term (fun x hx => hne x hx) (hpass hsub), ← hnow] at this
-              simp [b0 hsub, this]
-          constructor
-          · grind
-          · grind [Src.advance]
-          · grind [Src.advance]
-          · grind [Src.advance]
-          · grind [Src.advance]
-          · grind [Src.advance]
-          · grind [Src.advance]
-          · grind [Src.advance]
-          · exact b8
-          · grind
-          · grind
-          · grind
-          · grind
-          · exact hlog
+          split at hs
+          · next hsrc =>
+            injection hs with hs; subst hs
+            have hlog : (s.log ++ if s.sub = true then [(s.now, ev)] else []) = expected p.d 0 false p.script := by
+              cases hsub : s.sub
+              · simpa using b13 hsub
+              · have := b12 hsub
+                simp only [fut, hp, hr] at this
+                rw [exp_pass_term (fun x hx => hne x hx) (hpass hsub), ← hnow] at this
+                simp [this]
+            constructor
+            · simp
+            · grind [Src.advance]
+            · grind [Src.advance]
+            · grind [Src.advance]
+            · grind [Src.advance]
+            · grind [Src.advance]
+            · grind [Src.advance]
+            · simp
+            · simp
+            · simp
+            · simp
+            · intro _; exact hlog
+          · next hsrc =>
+            injection hs with hs; subst hs
+            have hsub : s.sub = false := by cases h : s.sub <;> simp_all
+            constructor <;> grind [Src.advance]
         · contradiction
       · next hp =>
         split at hs
         · next w ev r hr =>
+          split at hs
+          · next hsub =>
+            injection hs with hs; subst hs
+            constructor
+            · grind
+            · grind
+            · grind
+            · grind
+            · grind
+            · grind
+            · grind
+            · grind
+            · grind
+            · grind
+            · intro _
+              have := b12 hsub
+              simp only [fut, hp, hr] at this
+              simp only [fut, hr, List.tail_cons]
+              rw [← this]; simp
+            · intro hsub'; have hsub'' : s.sub = false := hsub'; simp [hsub] at hsub''
+          · next hsub =>
+            injection hs with hs; subst hs
+            have hsub' : s.sub = false := by simpa using hsub
+            constructor
+            · simp [hsub']
+            · grind
+            · grind
+            · grind
+            · grind
+            · intro _; right; exact hsub'
+            · grind
+            · intro h; have h' : s.sub = true := h; simp [hsub'] at h'
+            · intro h; have h' : s.sub = true := h; simp [hsub'] at h'
+            · intro h; have h' : s.sub = true := h; simp [hsub'] at h'
+            · intro h; have h' : s.sub = true := h; simp [hsub'] at h'
+            · intro _; exact b13 hsub'
+        · contradiction
+      · next hp =>
+        obtain ⟨q1, q2, q3, q4, q5, q6⟩ := Src.start_props s.now s.src.rest.tail
+        have hslot := hms (Or.inr hp)
+        split at hs
+        · next harm =>
           injection hs with hs; subst hs
           constructor
           · grind
-          · grind
-          · grind
-          · grind
-          · grind
-          · grind
-          · grind
-          · grind
-          · grind
-          · grind
-          · grind
-          · grind
+          · grind [Src.advance]
+          · grind [Src.advance]
+          · grind [Src.advance]
+          · grind [Src.advance]
+          · grind [Src.advance]
+          · grind [Src.advance]
+          · intro hsub i hi
+            simp at hi; subst hi
+            refine ⟨{ born := s.now }, by simp, rfl, ?_⟩
+            simp [Src.advance, q3]
+          · intro hsub _
+            have := b11 hsub (Or.inr hp)
+            simpa [Src.advance, q2, q3] using this
+          · grind [Src.advance]
           · intro hsub
-            have hsub' : s.sub = true := hsub
-            have := b12 hsub'
-            simp only [fut, hp, hr] at this
-            simp only [fut, hr, hsub', if_true, List.tail_cons]
-            rw [← this]; simp
-          · intro hsub
-            have hsub' : s.sub = false := hsub
-            have := b13 hsub'; simp [hsub']; exact this
-        · contradiction
-      · next hp =>
-        injection hs with hs; subst hs
-        obtain ⟨q1, q2, q3, q4, q5, q6⟩ := Src.start_props s.now s.src.rest.tail
-        have hslot := b7 (Or.inr hp)
-        constructor
-        · grind
-        · grind [Src.advance]
-        · grind [Src.advance]
-        · grind [Src.advance]
-        · grind [Src.advance]
-        · grind [Src.advance]
-        · grind [Src.advance]
-        · grind [Src.advance]
-        · intro i w hw hne
-          rw [List.getElem?_append] at hw
-          split at hw
-          · exact b8 i w hw (by simp [hslot])
-          · next hge =>
-            exfalso
-            have : i - s.timers.length ≠ 0 := by
-              intro h0; apply hne; simp; omega
-            cases hi : i - s.timers.length <;> simp [hi] at hw this
-        · intro hsub i hi
-          simp at hi; subst hi
-          refine ⟨{ born := s.now }, by simp, rfl, ?_⟩
-          simp [Src.advance, q3]
-        · intro hsub _
-          have := b11 hsub (Or.inr hp)
-          simpa [Src.advance, q2, q3] using this
-        · grind [Src.advance]
-        · intro hsub
-          have := b12 hsub
-          simp only [fut, hp] at this
-          have hpc : (s.src.advance s.now).pc ≠ .mid1 ∧ (s.src.advance s.now).pc ≠ .mid2 := by
-            simp only [Src.advance]; rcases q1 with h | h <;> simp [h]
-          have : fut p { s with src := s.src.advance s.now, slot := some s.timers.length,
-                                timers := s.timers ++ [{ born := s.now }] } = expected p.d s.now true s.src.rest.tail := by
-            simp only [fut]
-            split
-            · next h => exact absurd h hpc.1
-            · next h => exact absurd h hpc.2
-            · simp [Src.advance, q3]
-          rw [this]; assumption
-        · exact b13
+            have := b12 hsub
+            simp only [fut, hp] at this
+            have hpc : (s.src.advance s.now).pc ≠ .mid1 ∧ (s.src.advance s.now).pc ≠ .mid2 := by
+              simp only [Src.advance]; rcases q1 with h | h <;> simp [h]
+            have : fut p { s with src := s.src.advance s.now, slot := some s.timers.length,
+                                  timers := s.timers ++ [{ born := s.now }], arming := false } =
+                expected p.d s.now true s.src.rest.tail := by
+              simp only [fut]
+              split
+              · next h => exact absurd h hpc.1
+              · next h => exact absurd h hpc.2
+              · simp [Src.advance, q3]
+            rw [this]; assumption
+          · exact b13
+        · split at hs
+          · next hsub =>
+            injection hs with hs; subst hs
+            exact ⟨b0, b1, b2, b3, b4, b5, b6, b9, b10, b11, b12, b13⟩
+          · next hsub =>
+            injection hs with hs; subst hs
+            have hsub' : s.sub = false := by simpa using hsub
+            constructor <;> grind [Src.advance]
       · contradiction
     | 1 => simp [step, hu] at hs
     | i + 2 =>
@@ -1314,49 +1617,10 @@ theorem fstep {p : Params} {s s' : State} {l : Label} (hu : p.unsubAt = none) (h
       · next w hw =>
         split at hs
         · next hpc =>
-          injection hs with hs; subst hs
-          cases hws : w.sub
-          · -- a cancelled timer: `s.next(0)` is a no-op
-            have hset : ∀ (j : Nat) (w' : IW), (s.timers.set i (w.emitted s.now true))[j]? = some w' →
-                (s.timers[j]? = some w') ∨ (j = i ∧ w'.sub = false ∧ w'.born = w.born) := by
-              intro j w' hw'
-              rw [List.getElem?_set] at hw'
-              split at hw'
-              · split at hw'
-                · injection hw' with hw'; subst hw'; right; simp [IW.emitted, hws]; omega
-                · contradiction
-              · left; exact hw'
-            have hkeep : ∀ j : Nat, j ≠ i → (s.timers.set i (w.emitted s.now true))[j]? = s.timers[j]? := by
-              intro j hj; rw [List.getElem?_set]; simp [Ne.symm hj]
-            constructor
-            · simpa using b0
-            · exact b1
-            · exact b2
-            · exact b3
-            · exact b4
-            · simpa using b5
-            · exact b6
-            · exact b7
-            · intro j w' hw' hne
-              rcases hset j w' hw' with h | ⟨_, h, _⟩
-              · exact b8 j w' h hne
-              · exact h
-            · intro hsub j hj
-              have hsub' : s.sub = true := by simpa using hsub
-              obtain ⟨w', h1, h2, h3⟩ := b9 hsub' j hj
-              have hji : j ≠ i := by
-                intro h; subst h; rw [hw] at h1; injection h1 with h1; subst h1; simp [hws] at h2
-              exact ⟨w', by rw [hkeep j hji]; exact h1, h2, h3⟩
-            · intro hsub; exact b10 (by simpa using hsub)
-            · intro hsub; exact b11 (by simpa using hsub)
-            · intro hsub
-              have hsub' : s.sub = true := by simpa using hsub
-              have := b12 hsub'
-              simpa [fut] using this
-            · intro hsub
-              have hsub' : s.sub = false := by simpa using hsub
-              simpa using b13 hsub'
-          · -- the armed timer fires
+          split at hs
+          · next hws =>
+            -- the armed timer fires
+            injection hs with hs; subst hs
             constructor
             · simp
             · exact b1
@@ -1365,14 +1629,6 @@ theorem fstep {p : Params} {s s' : State} {l : Label} (hu : p.unsubAt = none) (h
             · exact b4
             · simp
             · exact b6
-            · exact b7
-            · intro j w' hw' hne
-              rw [List.getElem?_set] at hw'
-              split at hw'
-              · split at hw'
-                · injection hw' with hw'; subst hw'; simp [IW.emitted]
-                · contradiction
-              · exact b8 j w' hw' hne
             · simp
             · simp
             · simp
@@ -1383,21 +1639,24 @@ theorem fstep {p : Params} {s s' : State} {l : Label} (hu : p.unsubAt = none) (h
               · have h1 := b12 hsub
                 rw [hfire hsub hw hws hpc] at h1
                 simpa using h1
+          · next hws =>
+            -- a cancelled timer: `s.next(0)` is a no-op
+            injection hs with hs; subst hs
+            have hws' : w.sub = false := by simpa using hws
+            have hkeep : ∀ j : Nat, j ≠ i → (s.timers.set i (w.emitted s.now true))[j]? = s.timers[j]? := by
+              intro j hj; rw [List.getElem?_set]; simp [Ne.symm hj]
+            refine ⟨b0, b1, b2, b3, b4, b5, b6, ?_, b10, b11, ?_, b13⟩
+            · intro hsub j hj
+              obtain ⟨w', h1, h2, h3⟩ := b9 hsub j hj
+              have hji : j ≠ i := by
+                intro h; subst h; rw [hw] at h1; injection h1 with h1; subst h1; simp [hws'] at h2
+              exact ⟨w', by rw [hkeep j hji]; exact h1, h2, h3⟩
+            · intro hsub; have := b12 hsub; simpa [fut] using this
         · next hpc =>
           split at hs
           · next w' hw' =>
             injection hs with hs; subst hs
             obtain ⟨f1, f2, f3, fb, f4, f5, f6, f7, f8⟩ := IW.localStep_spec hw'
-            have hset : ∀ (j : Nat) (w'' : IW), (s.timers.set i w')[j]? = some w'' →
-                ∃ w0 : IW, s.timers[j]? = some w0 ∧ w''.sub = w0.sub ∧ w''.born = w0.born := by
-              intro j w'' hw''
-              rw [List.getElem?_set] at hw''
-              split at hw''
-              · next hij =>
-                split at hw''
-                · injection hw'' with hw''; subst hw''; subst hij; exact ⟨w, hw, f2, fb⟩
-                · contradiction
-              · exact ⟨w'', hw'', rfl, rfl⟩
             have hget : ∀ (j : Nat) (w0 : IW), s.timers[j]? = some w0 →
                 ∃ w'' : IW, (s.timers.set i w')[j]? = some w'' ∧ w''.sub = w0.sub ∧ w''.born = w0.born := by
               intro j w0 hw0
@@ -1411,26 +1670,12 @@ theorem fstep {p : Params} {s s' : State} {l : Label} (hu : p.unsubAt = none) (h
                 rw [hw] at hw0; injection hw0 with hw0; subst hw0
                 simp [hlt, f2, fb]
               · simp [hij]; exact ⟨w0, hw0, rfl, rfl⟩
-            constructor
-            · exact b0
-            · exact b1
-            · exact b2
-            · exact b3
-            · exact b4
-            · exact b5
-            · exact b6
-            · exact b7
-            · intro j w'' hw'' hne
-              obtain ⟨w0, h1, h2, _⟩ := hset j w'' hw''
-              rw [h2]; exact b8 j w0 h1 hne
+            refine ⟨b0, b1, b2, b3, b4, b5, b6, ?_, b10, b11, ?_, b13⟩
             · intro hsub j hj
               obtain ⟨w0, h1, h2, h3⟩ := b9 hsub j hj
               obtain ⟨w'', g1, g2, g3⟩ := hget j w0 h1
               exact ⟨w'', g1, by rw [g2]; exact h2, by rw [g3]; exact h3⟩
-            · exact b10
-            · exact b11
             · intro hsub; have := b12 hsub; simpa [fut] using this
-            · exact b13
           · contradiction
       · contradiction
 
@@ -1564,14 +1809,14 @@ def tieP : Params := { d := 10, script := [(.rel 0, .next (.int 1)), (.rel 10, .
 /-- exact tie, timer thread first: `TimedOut` is delivered and item 2 is dropped -/
 theorem timeout_tie_fires :
     (runFrom (step tieP) (init tieP)
-      [.run 0, .run 0, .run 0, .run 0, .run 2, .tick 10, .run 2, .run 2, .run 0, .run 0, .run 2, .tick 20]).map
+      [.run 0, .run 0, .run 0, .run 0, .run 0, .run 2, .tick 10, .run 2, .run 2, .run 0, .run 0, .run 2, .tick 20]).map
       (fun s => (s.now, s.log))
       = some (20, [(0, .next (.int 1)), (10, .error timedOut)]) := by decide
 
 /-- exact tie, source thread first: the timer is cancelled, item 2 passes -/
 theorem timeout_tie_passes :
     (runFrom (step tieP) (init tieP)
-      [.run 0, .run 0, .run 0, .run 0, .run 2, .tick 10, .run 0, .run 0, .run 0, .run 0, .run 2, .run 2, .run 2, .run 3, .tick 15]).map
+      [.run 0, .run 0, .run 0, .run 0, .run 0, .run 2, .tick 10, .run 0, .run 0, .run 0, .run 0, .run 0, .run 2, .run 2, .run 2, .run 3, .tick 15]).map
       (fun s => (s.now, s.log))
       = some (15, [(0, .next (.int 1)), (10, .next (.int 2))]) := by decide
 
@@ -1944,8 +2189,8 @@ example : demo.unsubAt = none ∧ noTie demo.d 0 false demo.script := by
 /-- a run of `demo`: three items pass, two timers are cancelled, the third fires `TimedOut` at 2 + 10, item 4 is dropped -/
 example :
     (replay demo
-      [.run 0, .run 0, .run 0, .run 0, .run 2, .tick 1, .run 0, .run 0, .run 0, .run 0, .run 3, .tick 2,
-       .run 0, .run 0, .run 0, .run 0, .run 4, .tick 10, .run 2, .run 2, .run 2, .tick 11, .run 3, .run 3, .run 3,
+      [.run 0, .run 0, .run 0, .run 0, .run 0, .run 2, .tick 1, .run 0, .run 0, .run 0, .run 0, .run 0, .run 3, .tick 2,
+       .run 0, .run 0, .run 0, .run 0, .run 0, .run 4, .tick 10, .run 2, .run 2, .run 2, .tick 11, .run 3, .run 3, .run 3,
        .tick 12, .run 4, .run 4, .run 4, .tick 22, .run 0, .run 0, .run 4, .run 4, .run 4, .tick 30]).map
       (fun s => (s.now, s.log, liveTimers s))
       = some (30, [(0, .next (.int 1)), (1, .next (.int 2)), (2, .next (.int 3)), (12, .error timedOut)], 0) := by decide
